@@ -59,6 +59,7 @@ fn main() {
         "ztext" => streams::ztext::run_rendered(&mut r, n, &mut out),
         "ztext-roundtrip" => streams::ztext::run_roundtrip(&mut r, n, &mut out),
         "ztext-fuzz" => streams::ztext::run_fuzz(&mut r, n, &mut out),
+        "reload-blocked" => streams::server::run_reload_blocked(&mut r, n, &mut out),
         other => {
             eprintln!("unknown stream {other}");
             std::process::exit(2);
